@@ -318,41 +318,67 @@ func (r *resolver) applyDeviation(y *Module, d *Deviation) error {
 	hasDets, _ := target.(HasDetails)
 	hasType, _ := target.(Leafable)
 	hasListDets, _ := target.(HasListDetails)
+	hasList, _ := target.(*List)
+	hasMusts, _ := target.(HasMusts)
+	notApplicable := func(property string) error {
+		return fmt.Errorf("%s cannot be deviated on %s", property, d.Ident())
+	}
 	if d.Add != nil {
 		if d.Add.configPtr != nil {
+			if hasDets == nil {
+				return notApplicable("config")
+			}
 			if hasDets.IsConfigSet() {
 				return fmt.Errorf("config already set on %s", d.Ident())
 			}
 			hasDets.setConfig(*(d.Add).configPtr)
 		}
 		if d.Add.mandatoryPtr != nil {
+			if hasDets == nil {
+				return notApplicable("mandatory")
+			}
 			if hasDets.IsMandatorySet() {
 				return fmt.Errorf("mandatory already set on %s", d.Ident())
 			}
 			hasDets.setMandatory(*(d.Add).mandatoryPtr)
 		}
 		if d.Add.maxElementsPtr != nil {
+			if hasListDets == nil {
+				return notApplicable("max-elements")
+			}
 			if hasListDets.IsMaxElementsSet() {
 				return fmt.Errorf("max-elements already set on %s", d.Ident())
 			}
 			hasListDets.setMaxElements(*(d.Add).maxElementsPtr)
 		}
 		if d.Add.minElementsPtr != nil {
+			if hasListDets == nil {
+				return notApplicable("min-elements")
+			}
 			if hasListDets.IsMinElementsSet() {
 				return fmt.Errorf("min-elements already set on %s", d.Ident())
 			}
 			hasListDets.setMinElements(*(d.Add).minElementsPtr)
 		}
 		for _, must := range d.Add.musts {
-			target.(HasMusts).addMust(must)
+			if hasMusts == nil {
+				return notApplicable("must")
+			}
+			hasMusts.addMust(must)
 		}
 		if d.Add.units != "" {
+			if hasType == nil {
+				return notApplicable("units")
+			}
 			if hasType.Units() != "" {
 				return fmt.Errorf("units already set on %s", d.Ident())
 			}
 			hasType.setUnits(d.Add.units)
 		}
 		if d.Add.HasDefault() {
+			if hasType == nil {
+				return notApplicable("default")
+			}
 			if hasType.HasDefault() {
 				return fmt.Errorf("default already set on %s", d.Ident())
 			}
@@ -361,44 +387,68 @@ func (r *resolver) applyDeviation(y *Module, d *Deviation) error {
 			}
 		}
 		for _, unique := range d.Add.unique {
-			target.(*List).unique = append(target.(*List).unique, unique)
+			if hasList == nil {
+				return notApplicable("unique")
+			}
+			hasList.unique = append(hasList.unique, unique)
 		}
 		for _, must := range d.Add.musts {
-			target.(HasMusts).addMust(must)
+			if hasMusts == nil {
+				return notApplicable("must")
+			}
+			hasMusts.addMust(must)
 		}
 	}
 	if d.Replace != nil {
 		if d.Replace.configPtr != nil {
+			if hasDets == nil {
+				return notApplicable("config")
+			}
 			if !hasDets.IsConfigSet() {
 				return fmt.Errorf("config not set on %s", d.Ident())
 			}
 			hasDets.setConfig(*(d.Replace).configPtr)
 		}
 		if d.Replace.mandatoryPtr != nil {
+			if hasDets == nil {
+				return notApplicable("mandatory")
+			}
 			if !hasDets.IsMandatorySet() {
 				return fmt.Errorf("mandatory not set on %s", d.Ident())
 			}
 			hasDets.setMandatory(*(d.Replace).mandatoryPtr)
 		}
 		if d.Replace.maxElementsPtr != nil {
+			if hasListDets == nil {
+				return notApplicable("max-elements")
+			}
 			if !hasListDets.IsMaxElementsSet() {
 				return fmt.Errorf("max-elements not set on %s", d.Ident())
 			}
 			hasListDets.setMaxElements(*(d.Replace).maxElementsPtr)
 		}
 		if d.Replace.minElementsPtr != nil {
+			if hasListDets == nil {
+				return notApplicable("min-elements")
+			}
 			if !hasListDets.IsMinElementsSet() {
 				return fmt.Errorf("min-elements not set on %s", d.Ident())
 			}
 			hasListDets.setMinElements(*(d.Replace).minElementsPtr)
 		}
 		if d.Replace.units != "" {
+			if hasType == nil {
+				return notApplicable("units")
+			}
 			if hasType.Units() == "" {
 				return fmt.Errorf("units not set on %s", d.Ident())
 			}
 			hasType.setUnits(d.Replace.units)
 		}
 		if d.Replace.HasDefault() {
+			if hasType == nil {
+				return notApplicable("default")
+			}
 			if !hasType.HasDefault() {
 				return fmt.Errorf("default not set on %s", d.Ident())
 			}
@@ -414,6 +464,9 @@ func (r *resolver) applyDeviation(y *Module, d *Deviation) error {
 	}
 	if d.Delete != nil {
 		if d.Delete.units != "" {
+			if hasType == nil {
+				return notApplicable("units")
+			}
 			if hasType.Units() == d.Delete.units {
 				return fmt.Errorf("cannot delete units '%s' != '%s' on %s",
 					d.Delete.units, hasType.Units(), d.Ident())
@@ -421,6 +474,9 @@ func (r *resolver) applyDeviation(y *Module, d *Deviation) error {
 			hasType.setUnits("")
 		}
 		if d.Delete.HasDefault() {
+			if hasType == nil {
+				return notApplicable("default")
+			}
 			if hasType.DefaultValue() == d.Delete.DefaultValue() {
 				return fmt.Errorf("cannot delete units '%s' != '%s' on %s",
 					d.Delete.Default(), hasType.DefaultValue(),
@@ -429,6 +485,9 @@ func (r *resolver) applyDeviation(y *Module, d *Deviation) error {
 			hasType.clearDefault()
 		}
 		for _, unique := range d.Delete.unique {
+			if hasList == nil {
+				return notApplicable("unique")
+			}
 			found := false
 			var uniques [][]string
 			for _, candidate := range target.(*List).unique {
@@ -445,6 +504,9 @@ func (r *resolver) applyDeviation(y *Module, d *Deviation) error {
 			target.(*List).unique = uniques
 		}
 		for _, must := range d.Delete.musts {
+			if hasMusts == nil {
+				return notApplicable("must")
+			}
 			found := false
 			var musts []*Must
 			for _, candidate := range target.(HasMusts).Musts() {
